@@ -255,6 +255,8 @@ pub struct RunTrace {
     pub listener_exit: Option<ProcExit>,
     pub outs_acked: usize,
     pub real_pause_ms: u64,
+    /// what every helper had written (acknowledged) when the first failing exit was about to be issued
+    pub written_at_first_failure: Option<Vec<[Vec<u8>; 3]>>,
 }
 impl RunTrace {
     pub fn result_json(&self) -> Option<serde_json::Value> {
@@ -339,6 +341,9 @@ pub fn drive_run_l(w: &mut World, actor: &str, sc: &RunScript, hang: Duration, l
     let mut point_counts: std::collections::HashMap<String, usize> = Default::default();
     let mut straggler: Option<usize> = None;
     let mut pending_spawn: Option<(u64, String, String)> = None;
+    // a child being kept alive for real time: (helper, deadline); meanwhile monorail is answered at once
+    let mut hold: Option<(usize, std::time::Instant)> = None;
+    let mut after_hold: Option<usize> = None;
 
     macro_rules! hang {
         ($($a:tt)*) => {{
@@ -436,7 +441,23 @@ pub fn drive_run_l(w: &mut World, actor: &str, sc: &RunScript, hang: Duration, l
                 Opt::H(best)
             }
         };
-        let choice = match sc.strategy {
+        let mut timed: Option<Duration> = None;
+        let forced: Option<Opt> = if let Some((i, dl)) = hold {
+            let now = std::time::Instant::now();
+            if now >= dl {
+                hold = None;
+                after_hold = Some(i);
+                Some(Opt::H(i))
+            } else if m_parked.is_some() {
+                Some(Opt::MGo)
+            } else {
+                timed = Some(dl - now);
+                Some(Opt::MWait)
+            }
+        } else {
+            None
+        };
+        let choice = if let Some(f) = forced { f } else { match sc.strategy {
             Strategy::PlanOrder => serial_pick(&|h| h as i64),
             Strategy::Reverse => serial_pick(&|h| -(h as i64)),
             Strategy::Prio => {
@@ -473,7 +494,7 @@ pub fn drive_run_l(w: &mut World, actor: &str, sc: &RunScript, hang: Duration, l
                     Opt::H(hs[0])
                 }
             }
-        };
+        } };
         let plan_choice = {
             if opts.contains(&Opt::MGo) { Opt::MGo } else if opts.contains(&Opt::MWait) { Opt::MWait } else { Opt::H(hs[0]) }
         };
@@ -540,7 +561,11 @@ pub fn drive_run_l(w: &mut World, actor: &str, sc: &RunScript, hang: Duration, l
                     Ev::Exit(x) => x.proc_id == proc_id,
                     Ev::Hello(_) => true,
                     _ => false,
-                }, hang);
+                }, timed.unwrap_or(hang));
+                if ev.is_none() && timed.is_some() {
+                    // the hold is over (or nothing happened meanwhile): not a hang
+                    continue 'outer;
+                }
                 match ev {
                     Some(Ev::Point(p)) => {
                         let seq = ctl.seq;
@@ -647,13 +672,25 @@ pub fn drive_run_l(w: &mut World, actor: &str, sc: &RunScript, hang: Duration, l
                     }
                     None => {
                         let (code, pause) = sc.behav_for(&tr.helpers[i].command, &tr.helpers[i].target).map(|b| (b.code, b.exit_pause_ms)).unwrap_or((0, 0));
-                        if pause > 0 {
+                        if code != 0 && tr.written_at_first_failure.is_none() {
+                            tr.written_at_first_failure = Some(tr.helpers.iter().map(|h| h.written.clone()).collect());
+                        }
+                        if pause > 0 && after_hold != Some(i) {
+                            // keep it alive for that long; monorail keeps being answered meanwhile, so whatever
+                            // it does on its own during that time is observed with its true arrival stamp
                             tr.log.push(format!("hold {} {} for {} ms", tr.helpers[i].command, tr.helpers[i].target, pause));
                             tr.real_pause_ms += pause as u64;
-                            std::thread::sleep(Duration::from_millis(pause as u64));
+                            hold = Some((i, std::time::Instant::now() + Duration::from_millis(pause as u64)));
+                            continue 'outer;
                         }
+                        after_hold = None;
                         let seq = ctl.tick();
-                        ctl.send(conn, &format!("EXIT {}\n", code));
+                        if code < 0 {
+                            // die by signal -code: the process has no exit code at all
+                            ctl.send(conn, &format!("SIGNAL {}\n", -code));
+                        } else {
+                            ctl.send(conn, &format!("EXIT {}\n", code));
+                        }
                         tr.helpers[i].exit_instr_seq = Some(seq);
                         tr.helpers[i].exit_code = Some(code);
                         tr.log.push(format!("exit {} {} code={}", tr.helpers[i].command, tr.helpers[i].target, code));
